@@ -6,6 +6,7 @@ mod breaker;
 mod node;
 mod reads;
 mod replicator;
+mod subs;
 mod vcluster;
 mod watermark;
 
@@ -20,6 +21,7 @@ fn main() {
         "reads" => rt.block_on(reads::reads_cmd(&mut rep, &args[2], args[3].parse().unwrap())),
         "replicator" => rt.block_on(replicator::replicator_cmd(&mut rep, &args[2])),
         "vcluster" => rt.block_on(vcluster::vcluster_cmd(&mut rep, &args[2])),
+        "subs" => rt.block_on(subs::subs_cmd(&mut rep, &args[2])),
         "watermark" => rt.block_on(watermark::watermark_cmd(&mut rep, &args[2])),
         "breaker" => breaker::breaker_cmd(&mut rep, &args[2], &args[3], args.get(4).map(|s| s.as_str()).unwrap_or("conform")),
         other => panic!("unknown subcommand {other}"),
